@@ -407,6 +407,33 @@ def forbidden_in(src):
     return ('forbidden construct: ' + m.group(0)) if m else None
 
 
+def required_modules(src):
+    """PV modules named in the Require statements of a (comment-free) Coq source, as 'Dir.Name'"""
+    out = []
+    for m in re.finditer(r'From\s+PV\s+Require\s+(?:Import\s+|Export\s+)?(.*?)\.(?=\s|$)', src, flags=re.S):
+        out += m.group(1).split()
+    for m in re.finditer(r'(?<!PV\s)Require\s+(?:Import\s+|Export\s+)?(.*?)\.(?=\s|$)', src, flags=re.S):
+        out += [x[3:] for x in m.group(1).split() if x.startswith('PV.')]
+    return out
+
+
+def import_closure(vfile):
+    """set of coq/-relative .v files that vfile transitively requires from PV.* (including itself)"""
+    seen, todo = set(), [vfile]
+    while todo:
+        f = todo.pop()
+        if f in seen:
+            continue
+        seen.add(f)
+        p = os.path.join(COQ, f)
+        if not os.path.exists(p):
+            continue
+        src = re.sub(r'\(\*.*?\*\)', '', open(p).read(), flags=re.S)
+        for mod in required_modules(src):
+            todo.append(mod.replace('.', '/') + '.v')
+    return seen
+
+
 def gate_closure(vfile):
     """grep gate over vfile and every PV.* file it (transitively) requires"""
     seen, todo, bad = set(), [vfile], []
@@ -431,12 +458,8 @@ def gate_closure(vfile):
                 depth -= 1
             elif depth == 0 and re.match(r'\s*(Variable|Variables|Hypothesis|Hypotheses|Context)\b', line):
                 bad.append('%s: section-less %s' % (f, line.strip()[:40]))
-        for m in re.finditer(r'From\s+PV\s+Require\s+(?:Import|Export)?\s*([^.]*(?:\.[A-Za-z_][^.\s]*)*)\s*\.', src):
-            for mod in m.group(1).split():
-                todo.append(mod.replace('.', '/') + '.v')
-        for m in re.finditer(r'Require\s+(?:Import|Export)\s+((?:PV\.[A-Za-z0-9_.]+\s*)+)\.', src):
-            for mod in m.group(1).split():
-                todo.append(mod[3:].replace('.', '/') + '.v')
+        for mod in required_modules(src):
+            todo.append(mod.replace('.', '/') + '.v')
     return bad
 
 
